@@ -16,6 +16,8 @@ func hashFile(fs afero.Fs, path string) (hash []byte, err error) {
 	defer f.Close()
 
 	h := md5.New()
-	io.Copy(h, f)
+	if _, err := io.Copy(h, f); err != nil {
+		return nil, err
+	}
 	return h.Sum(nil), nil
 }
